@@ -664,6 +664,7 @@ def check_C05(tier, seed):
     # groupby is a state machine of its own (Model/GroupBy.v, C16): its laziness is compared here as well
     import check_c16
     fails += check_c16.aspect_lazy(rep, rng, 300 * common.scale(rep) if tier == "quick" else 5000)
+    fails += tee_laziness(rep, rng, 150 * common.scale(rep) if tier == "quick" else 3000)
     spec_stage(rep, "C05", std_pairs)
     finish_with_model(rep, "C05", pairs, fails, proofs_ok)
     return rep.finish()
@@ -981,6 +982,71 @@ def falsy_callable_fault_probes(rep):
                     fails += 1
                     rep.violation("falsy-callable:%s" % name, {"tool": name, "fails_at_call": n, "async_callable": asynchronous,
                                                                 "why": "asyncstdlib %r, stdlib %r" % (got, want)})
+    return fails
+
+
+def tee_laziness(rep, rng, n):
+    """C05 for tee (its interleavings are C09's): under sequential use the source is pulled exactly when itertools.tee
+    pulls it -- only when the child that is asked has nothing buffered -- and never after it has ended"""
+    import itertools
+    import asyncstdlib as a
+    fails = 0
+    for _ in range(n):
+        nchild = rng.choice([2, 3, 4])
+        items = list(range(rng.randrange(0, 6)))
+        ops = [rng.randrange(nchild) for _ in range(rng.randrange(1, 16))]
+
+        def run(lib):
+            pulls = [0]
+            if lib == "asl":
+                class S:
+                    def __init__(s):
+                        s.items = list(items)
+
+                    def __aiter__(s):
+                        return s
+
+                    async def __anext__(s):
+                        pulls[0] += 1
+                        if not s.items:
+                            raise StopAsyncIteration
+                        return s.items.pop(0)
+                kids = list(a.tee(S(), nchild))
+            else:
+                class I:
+                    def __init__(s):
+                        s.items = list(items)
+
+                    def __iter__(s):
+                        return s
+
+                    def __next__(s):
+                        pulls[0] += 1
+                        if not s.items:
+                            raise StopIteration
+                        return s.items.pop(0)
+                kids = list(itertools.tee(I(), nchild))
+            trace = []
+
+            async def go():
+                ended = set()
+                for i in ops:
+                    if i in ended:
+                        continue         # (asking an exhausted itertools.tee child again re-polls the source; a finished generator cannot)
+                    try:
+                        v = (await kids[i].__anext__()) if lib == "asl" else next(kids[i])
+                    except (StopAsyncIteration, StopIteration):
+                        v = "stop"
+                        ended.add(i)
+                    trace.append((v, pulls[0]))
+            G.drive(go())
+            return trace
+        ta, ts = run("asl"), run("std")
+        rep.count(("tee-lazy", nchild, tuple(items), tuple(ops)), len(ops) > 2)
+        if ta != ts:
+            fails += 1
+            rep.violation("tee:laziness", {"children": nchild, "items": items, "advance_order": ops,
+                                           "why": "(value, source pulls so far) after each step: asyncstdlib %r itertools %r" % (ta, ts)})
     return fails
 
 
